@@ -20,7 +20,7 @@ RULE = (
     "Model-based histories: items of length 0-10 over 2-4 distinct keys (Items whose equality is reflexive, "
     "equal-yet-distinguishable), key absent / sync table / async table, source as list / iterator / async "
     "generator / class; up to 15 operations from {advance the groupby, advance group handle i (ANY previously "
-    "returned group, also stale ones)}. Every operation is mirrored on itertools.groupby over the same data; "
+    "returned group, also stale ones), close a stale group}. Every operation is mirrored on itertools.groupby over the same data; "
     "after each one the returned key, the returned item (identity) or the stop must be the same. "
     "Non-trivial: the history advances a stale group, or advances the groupby while the current group is only "
     "partly consumed (and the input has >= 3 items)."
@@ -44,7 +44,8 @@ def histories(draw, tier):
             items[pos] = uids.fix(("AW",))
     ops = draw(st.lists(st.one_of(st.just(["gb"]), st.just(["gb"]),
                                   st.tuples(st.just("group"), st.integers(0, 6)).map(list),
-                                  st.tuples(st.just("group"), st.integers(0, 6)).map(list)),
+                                  st.tuples(st.just("group"), st.integers(0, 6)).map(list),
+                                  st.tuples(st.just("close-group"), st.integers(0, 6)).map(list)),
                         min_size=draw(st.sampled_from([0, 4, 6])), max_size=15 if tier == "quick" else 25))
     return {"items": items, "key": key, "keyfl": draw(st.sampled_from(["def", "async", "obj"])),
             "fl": draw(st.sampled_from(["list", "iter", "agen", "aclass"])), "ops": ops}
@@ -96,6 +97,12 @@ def check(case):
                     groups_a.append(ga)
                     groups_s.append(gs)
                     taken_from_current = 0
+            elif op[0] == "close-group":
+                # itertools groups cannot be closed; closing a STALE asyncstdlib group must change nothing
+                if len(groups_a) >= 2:
+                    i = op[1] % (len(groups_a) - 1)
+                    await groups_a[i].aclose()
+                    flags["stale"] = True
             else:
                 if not groups_a:
                     continue
